@@ -192,6 +192,27 @@ func (r *Run) report() int {
 			viols = append(viols, Violation{Obligation: "standin:" + s.Name, Replay: rp, Confirmed: false, Detail: "stand-in did not run: " + s.Error})
 		}
 	}
+	// vacuity / structural problems are failures of the machinery's own obligations
+	for _, v := range r.vacuous {
+		rp := filepath.Join(verifDir, "replay", r.prop, "vacuous-"+sanitizeFile(v)+".json")
+		b, _ := json.MarshalIndent(map[string]interface{}{"property": r.prop, "obligation": v + "/canary", "detail": "the hypotheses of this unit are unsatisfiable: its obligations hold vacuously (contradictory requires / invariant / lemma)"}, "", " ")
+		os.WriteFile(rp, b, 0644)
+		fmt.Printf("  FAIL %s/canary: hypotheses unsatisfiable (vacuous proof)\n", v)
+		viols = append(viols, Violation{Obligation: v + "/canary", Replay: rp})
+	}
+	if len(r.scanProblems) > 0 {
+		rp := filepath.Join(verifDir, "replay", r.prop, "established_by-scan.json")
+		b, _ := json.MarshalIndent(map[string]interface{}{"property": r.prop, "obligation": "established_by scan", "detail": r.scanProblems}, "", " ")
+		os.WriteFile(rp, b, 0644)
+		for _, p := range r.scanProblems {
+			fmt.Printf("  FAIL established_by scan: %s\n", p)
+		}
+		viols = append(viols, Violation{Obligation: "established_by scan", Replay: rp})
+	}
+	nOb++ // the structural scan counts as one obligation
+	if len(r.scanProblems) == 0 {
+		nDis++
+	}
 	wall := time.Since(r.start).Seconds()
 	fmt.Printf("TOTAL property=%s tier=%s obligations=%d discharged=%d undecided_units=%d standins=%d wall=%.1fs\n", r.prop, r.tier, nOb, nDis, len(undecided), len(sres), wall)
 	// vacuity guard
@@ -285,6 +306,8 @@ func (r *Run) writeEvidence(nOb, nDis int, under, trusted, summarised, external,
 		"slowest":                  slowest,
 		"samples":                  samples,
 		"undecided":                undecided,
+		"vacuity":                  map[string]interface{}{"canaries_sat": r.canarySat, "canaries_unknown": r.canaryUnknown, "vacuous_units": r.vacuous, "rule": "for every unit the hypotheses of its last obligation are checked satisfiable (5 s); unsat would mean a vacuous proof and is reported as a failure"},
+		"structural_scan":          "established_by: objects of types with an invariant are created / written only in the listed constructors (checked on the typed AST of the whole module on every run)",
 		"explanation":              explanationOf(r.prop, nOb, nDis, undecided, sres),
 	}
 	var standins []map[string]interface{}
